@@ -8,6 +8,7 @@ import (
 	"go/token"
 	"go/types"
 	"os"
+	"sort"
 	"strings"
 
 	"golang.org/x/tools/go/packages"
@@ -32,6 +33,7 @@ type World struct {
 	extFn   map[string]*ssa.Function
 	intrinsicsUsed map[string]bool
 	assumedUsed    map[string]bool
+	baseSentinels  []string // error globals initialised directly by errors.New (the base classes)
 }
 
 const rootPath = "github.com/veraison/psatoken"
@@ -145,6 +147,9 @@ func loadWorld(repo, verifDir string) (*World, error) {
 				if !ok {
 					continue
 				}
+				if callee := call.Call.StaticCallee(); callee != nil && callee.Pkg != nil && callee.Pkg.Pkg.Path() == "errors" && callee.Name() == "New" {
+					w.baseSentinels = append(w.baseSentinels, sp.Pkg.Name()+"."+g.Name())
+				}
 				if callee := call.Call.StaticCallee(); callee != nil && callee.Pkg != nil && callee.Pkg.Pkg.Path() == "regexp" && callee.Name() == "MustCompile" {
 					if c, ok := call.Call.Args[0].(*ssa.Const); ok {
 						w.regexOf[sp.Pkg.Name()+"."+g.Name()] = constantString(c)
@@ -153,6 +158,7 @@ func loadWorld(repo, verifDir string) (*World, error) {
 			}
 		}
 	}
+	sort.Strings(w.baseSentinels)
 	return w, nil
 }
 
